@@ -84,6 +84,19 @@ static const char *find_label_at(const DisasmLabel *labels, uint32_t count, uint
  * Operand Formatting
  * ======================================================================== */
 
+/* Write a string constant with the escapes the assembler understands */
+static void write_escaped(FILE *out, const char *s) {
+    for (const char *p = s; *p; p++) {
+        switch (*p) {
+            case '\n': fprintf(out, "\\n"); break;
+            case '\t': fprintf(out, "\\t"); break;
+            case '\\': fprintf(out, "\\\\"); break;
+            case '"':  fprintf(out, "\\\""); break;
+            default:   fputc(*p, out); break;
+        }
+    }
+}
+
 static void format_operand(FILE *out, const DecodedInstruction *instr, int idx,
                             const NvmModule *mod, uint32_t instr_offset,
                             const DisasmLabel *labels, uint32_t label_count) {
@@ -100,7 +113,9 @@ static void format_operand(FILE *out, const DecodedInstruction *instr, int idx,
                 const char *str = nvm_get_string(mod, instr->operands[idx].u32);
                 if (str) {
                     fprintf(out, " %u", instr->operands[idx].u32);
-                    fprintf(out, "  ; \"%s\"", str);
+                    fprintf(out, "  ; \"");
+                    write_escaped(out, str);
+                    fprintf(out, "\"");
                     return;
                 }
             }
@@ -196,15 +211,7 @@ void disasm_module_to_file(const NvmModule *mod, FILE *out) {
         if (s) {
             fprintf(out, ".string \"");
             /* Escape special characters */
-            for (const char *p = s; *p; p++) {
-                switch (*p) {
-                    case '\n': fprintf(out, "\\n"); break;
-                    case '\t': fprintf(out, "\\t"); break;
-                    case '\\': fprintf(out, "\\\\"); break;
-                    case '"':  fprintf(out, "\\\""); break;
-                    default:   fputc(*p, out); break;
-                }
-            }
+            write_escaped(out, s);
             fprintf(out, "\"\n");
         }
     }
